@@ -21,8 +21,10 @@ CHECKS = [
     chk("C03", "proof",
         "Deductive proof, for all inputs and any number of proposals, that the target computed by the real "
         "Matryoshka._calc_target_power is zero or inside the system inclusion bounds and outside the exclusion zone: "
-        "contracts on the three _bounds functions and a loop invariant for the priority sweep, discharged by z3.",
-        REALS + "; expiry (drop_old_proposals) only by a bounded native run of its contract; uniqueness of a strictly ordered arrangement assumed",
+        "contracts on the three _bounds functions and a loop invariant for the priority sweep (which also visits the proposals in "
+        "the strict order of Proposal.__lt__: history-freedom), the bucket algebra of calculate_target_power, and expiry "
+        "(drop_old_proposals removes exactly the proposals older than the maximum age), discharged by z3.",
+        REALS + "; uniqueness of a strictly ordered arrangement of a finite set assumed (mathematical fact)",
         "contract-based deductive verification (AST->VC generator, z3)", "DESIGN.md 3 (C03)"),
     chk("C04", "proof",
         "Deductive proof that both sweeps (the target sweep and get_status) compute the same documented recurrences - running "
